@@ -218,3 +218,220 @@ Print Assumptions C08_grammar_ranges.
 Print Assumptions C08_for_counter_refuted.
 Print Assumptions C08_nonvacuous.
 Print Assumptions C08_hypothesis_nonvacuous.
+
+(* ====================================================================================================== *)
+(* C08 for EVERY response kind, at tree level, for trees satisfying the parser's invariant, and composed   *)
+(* with the lexer and the parser (Proofs/ResponseRanges.v, witnesses in Proofs/ResponseRangesWitness.v)    *)
+(* ====================================================================================================== *)
+From GoldV Require Import Encase SymTab Scoping Annot DefTree AnnotProofs.
+From GoldV Require Report ReportProofs ReportWitness WsTree WsTreeWitness HierTree HierTreeProofs HierTreeWitness
+                   ResponseRanges ResponseRangesWitness.
+
+(*  RangeIn L r          range_wf r /\ lines_le L r
+    WfTree L t           Forall_nodes (NodeWf L) t               (what C08_parse_gold_wf gives for the parser's trees)
+    PdWf L pd            every parser / lexer diagnostic of pd has RangeIn L     (the shape C08_diag_wf gives)
+    WsWf ws Ls           Forall2 (fun d L => WfTree L (snd d)) ws Ls: document by document, its own line count
+    TablesAtHome ws      the class index (file STEM -> file) sends the for_class_or_module of every non-empty table of
+                         document j back to document j, or nowhere.  It is the exact guard: without it the code
+                         answers with a link into ANOTHER file carrying this file's ranges (C08_link_foreign_lines_refuted,
+                         reproduced against the real code).  TablesAtHomeH: the same over HierTree.doc_of.
+    No invariant on token-valued attributes beyond NodeWf is needed: every response range is a node range, the
+    range of a method's name node, or the K_ident token of a declaration node (SelOK). *)
+
+(* ---- diagnostics: every item of the assembled response (parser and lexer diagnostics, unused-variable warnings,
+        "Var name already declared", return-type, unpurged, naming and inherited rules) ---- *)
+Theorem C08_response_diagnostics_wf :
+  forall L t pd, Forall_nodes (NodeWf L) t ->
+    Forall (fun p => range_wf (Report.pd_range p) /\ lines_le L (Report.pd_range p)) pd ->
+    Forall (fun d => range_wf (Report.d_range d) /\ lines_le L (Report.d_range d)) (Report.report t pd).
+Proof. exact ResponseRanges.report_items_wf. Qed.
+
+(* ... and of every later request on the document (the v1 list is cached) *)
+Theorem C08_response_requests_wf :
+  forall L d, ReportProofs.rdoc_ok d -> Forall_nodes (NodeWf L) (Report.r_ast d) ->
+    Forall (fun p => range_wf (Report.pd_range p) /\ lines_le L (Report.pd_range p)) (Report.r_pd d) ->
+    Forall (fun x => range_wf (Report.d_range x) /\ lines_le L (Report.d_range x)) (fst (Report.request d)).
+Proof. exact ResponseRanges.request_items_wf. Qed.
+
+(* ---- definition links, one document: target_selection_range and target_range are well formed within the
+        document and the former lies inside the latter ---- *)
+Theorem C08_definition_links_doc_wf :
+  forall L t stem p ls, Forall_nodes (NodeWf L) t -> DefTree.definition t stem p = Ans ls ->
+    Forall (fun l => (range_wf (fst l) /\ lines_le L (fst l)) /\ (range_wf (snd l) /\ lines_le L (snd l)) /\
+                     inside (fst l) (snd l)) ls.
+Proof. exact ResponseRanges.definition_links_wf_doc. Qed.
+
+(* ---- definition links, a workspace: every link names a document of the workspace and both ranges are well
+        formed within THAT document's line count, selection inside range ---- *)
+Theorem C08_definition_links_wf :
+  forall ws Ls a p ls,
+    Forall2 (fun d L => Forall_nodes (NodeWf L) (snd d)) ws Ls -> ResponseRanges.TablesAtHome ws ->
+    WsTree.wdefinition ws a p = Ans ls ->
+    Forall (fun l : WsTree.wlink =>
+              let '(stem, sel, rng) := l in
+              exists k dt L, WsTree.find_doc ws stem = Some (k, dt) /\ fst dt = stem /\ nth_error Ls k = Some L /\
+                             (range_wf sel /\ lines_le L sel) /\ (range_wf rng /\ lines_le L rng) /\ inside sel rng) ls.
+Proof. exact ResponseRanges.definition_links_wf. Qed.
+
+(* without the guard: the ranges are well formed within the SOURCE document (the one whose table holds the symbol)
+   and the link names some document of the workspace *)
+Theorem C08_definition_links_source_wf :
+  forall ws Ls a p ls,
+    Forall2 (fun d L => Forall_nodes (NodeWf L) (snd d)) ws Ls -> WsTree.wdefinition ws a p = Ans ls ->
+    Forall (fun l : WsTree.wlink =>
+              let '(stem, sel, rng) := l in
+              (exists k dt, WsTree.find_doc ws stem = Some (k, dt) /\ fst dt = stem) /\
+              exists j L, (j < length ws)%nat /\ nth_error Ls j = Some L /\
+                          (range_wf sel /\ lines_le L sel) /\ (range_wf rng /\ lines_le L rng) /\ inside sel rng) ls.
+Proof. exact ResponseRanges.definition_links_source_wf. Qed.
+
+(* ---- hierarchy items: prepare, supertypes, subtypes.  ItemWf ws Ls it: the uri of `it` is the stem of a document
+        d' of ws, (d', L) is a row of combine ws Ls, both ranges are well formed within L, selection inside range ---- *)
+Theorem C08_hierarchy_items_wf :
+  forall ws Ls,
+    Forall2 (fun d L => Forall_nodes (NodeWf L) (snd d)) ws Ls -> HierTreeProofs.distinct_stems ws ->
+    ResponseRanges.TablesAtHomeH ws ->
+    let ok (it : HierTree.item) :=
+      exists d' L, HierTree.doc_of ws (upper (HierTree.i_uri it)) = Some d' /\ fst d' = HierTree.i_uri it /\
+                   In (d', L) (combine ws Ls) /\
+                   (range_wf (HierTree.i_sel it) /\ lines_le L (HierTree.i_sel it)) /\
+                   (range_wf (HierTree.i_range it) /\ lines_le L (HierTree.i_range it)) /\
+                   inside (HierTree.i_sel it) (HierTree.i_range it) in
+    (forall d p l, In d ws -> HierTree.prepare ws d p = Ans (HierTree.ROk l) -> Forall ok l) /\
+    (forall tr it l, HierTree.supertypes_of ws tr it = Ans (HierTree.ROk l) -> Forall ok l) /\
+    (forall tr it l, HierTree.subtypes_of ws tr it = Ans (HierTree.ROk l) -> Forall ok l).
+Proof. exact ResponseRanges.hierarchy_items_wf. Qed.
+
+(* ---- composed with the lexer and the parser: for ANY text, the tree parse_content gets (root_of_text), the
+        document's parser diagnostics followed by the lexer's errors (pd_of_text; emsg = the text printed for a lexer
+        error, any function): every item of the diagnostics response has start <= end on lines of the text ---- *)
+Theorem C08_response_of_text_wf :
+  forall text emsg,
+    (exists c, parse_gold (fst (lex text)) = (Ok [] (ResponseRanges.root_of_text text), c)) /\
+    Forall_nodes (NodeWf (lf_count text)) (ResponseRanges.root_of_text text) /\
+    Forall (fun d => range_wf (Report.d_range d) /\ lines_le (lf_count text) (Report.d_range d))
+           (Report.report (ResponseRanges.root_of_text text) (ResponseRanges.pd_of_text text emsg)).
+Proof.
+  intros text emsg. split.
+  - destruct (ResponseRanges.parsed_text_facts text) as (root & c & E & <- & _). exists c. exact E.
+  - split; [apply ResponseRanges.root_of_text_wf|apply ResponseRanges.response_of_parsed_text].
+Qed.
+
+(* ... the links of a request on one parsed text, and links / hierarchy items in a workspace of parsed texts
+   (ws_of_texts, lines_of_texts: per document its tree and its number of line feeds) *)
+Theorem C08_links_of_text_wf :
+  forall text stem p ls, DefTree.definition (ResponseRanges.root_of_text text) stem p = Ans ls ->
+    Forall (fun l => (range_wf (fst l) /\ lines_le (lf_count text) (fst l)) /\
+                     (range_wf (snd l) /\ lines_le (lf_count text) (snd l)) /\ inside (fst l) (snd l)) ls.
+Proof. exact ResponseRanges.links_of_parsed_text. Qed.
+
+Theorem C08_links_of_texts_wf :
+  forall tx a p ls,
+    ResponseRanges.TablesAtHome (ResponseRanges.ws_of_texts tx) ->
+    WsTree.wdefinition (ResponseRanges.ws_of_texts tx) a p = Ans ls ->
+    Forall (fun l : WsTree.wlink =>
+              let '(stem, sel, rng) := l in
+              exists k dt L, WsTree.find_doc (ResponseRanges.ws_of_texts tx) stem = Some (k, dt) /\ fst dt = stem /\
+                             nth_error (ResponseRanges.lines_of_texts tx) k = Some L /\
+                             (range_wf sel /\ lines_le L sel) /\ (range_wf rng /\ lines_le L rng) /\ inside sel rng) ls.
+Proof. exact ResponseRanges.links_of_parsed_texts. Qed.
+
+Theorem C08_items_of_texts_wf :
+  forall tx,
+    HierTreeProofs.distinct_stems (ResponseRanges.ws_of_texts tx) -> ResponseRanges.TablesAtHomeH (ResponseRanges.ws_of_texts tx) ->
+    let ws := ResponseRanges.ws_of_texts tx in
+    let ok := ResponseRanges.ItemWf ws (ResponseRanges.lines_of_texts tx) in
+    (forall d p l, In d ws -> HierTree.prepare ws d p = Ans (HierTree.ROk l) -> Forall ok l) /\
+    (forall tr it l, HierTree.supertypes_of ws tr it = Ans (HierTree.ROk l) -> Forall ok l) /\
+    (forall tr it l, HierTree.subtypes_of ws tr it = Ans (HierTree.ROk l) -> Forall ok l).
+Proof. exact ResponseRanges.items_of_parsed_texts. Qed.
+
+(* ---- the guard is needed: aA.god declares class aB (field fp on line 4), aB.god is one line long; go-to-definition
+        on fp answers with a link into aB.god on line 4.  Every other premise holds (parser's trees, distinct stems).
+        Reproduced against the real code: harness engine wstree, case
+        aA=99.108.97.115.115.32.97.66.10.10.10.10.102.112.32.58.32.105.110.116.52.10;aB=99.108.97.115.115.32.97.66 ---- *)
+Theorem C08_link_foreign_lines_refuted :
+  let tx := ResponseRangesWitness.fx_texts in
+  Forall2 (fun d L => Forall_nodes (NodeWf L) (snd d)) (ResponseRanges.ws_of_texts tx) (ResponseRanges.lines_of_texts tx) /\
+  ResponseRanges.lines_of_texts tx = [5; 0] /\
+  WsTree.wdefinition (ResponseRanges.ws_of_texts tx) 0 (mkPos 4 1) =
+    Ans [(ResponseRangesWitness.fx_aB, mkRange (mkPos 4 0) (mkPos 4 2), mkRange (mkPos 4 0) (mkPos 4 9))] /\
+  (exists dt, WsTree.find_doc (ResponseRanges.ws_of_texts tx) ResponseRangesWitness.fx_aB = Some (1%nat, dt)) /\
+  ~ lines_le 0 (mkRange (mkPos 4 0) (mkPos 4 9)) /\
+  ResponseRanges.tables_at_home_b (ResponseRanges.ws_of_texts tx) = false.
+Proof. exact ResponseRangesWitness.link_foreign_lines_refuted. Qed.
+
+Theorem C08_item_foreign_lines_refuted :
+  exists it,
+    HierTree.prepare (ResponseRanges.ws_of_texts ResponseRangesWitness.fx_texts)
+                     (ResponseRangesWitness.fx_aA, ResponseRanges.root_of_text ResponseRangesWitness.fx_textA) (mkPos 4 1)
+      = Ans (HierTree.ROk [it]) /\
+    HierTree.i_uri it = ResponseRangesWitness.fx_aB /\ HierTree.i_range it = mkRange (mkPos 4 0) (mkPos 4 9) /\
+    ~ lines_le 0 (HierTree.i_range it).
+Proof. exact ResponseRangesWitness.item_foreign_lines_refuted. Qed.
+
+(* ---- regression: the rule of a seeded defect.  Two consecutive parser diagnostics with the same message merged into
+        one (the first one's range with its END set to the second one's end).  The parser reports an inner block
+        before the outer one: (4:8-4:10) then (3:6-3:8); merged: 4:8 - 3:8, the end before the start.  The response
+        as it is keeps both, both well formed (through C08_response_diagnostics_wf). ---- *)
+Theorem C08_old_merged_run_refuted :
+  let t := ResponseRangesWitness.merged_tree in
+  let pd := ResponseRangesWitness.merged_pd in
+  Forall_nodes (NodeWf 5) t /\
+  Forall (fun p => range_wf (Report.pd_range p) /\ lines_le 5 (Report.pd_range p)) pd /\
+  map Report.d_range (ResponseRangesWitness.report_merged t pd) = [mkRange (mkPos 4 8) (mkPos 3 8)] /\
+  ~ Forall (fun d => range_wf (Report.d_range d)) (ResponseRangesWitness.report_merged t pd) /\
+  map Report.d_range (Report.report t pd) = [mkRange (mkPos 4 8) (mkPos 4 10); mkRange (mkPos 3 6) (mkPos 3 8)] /\
+  Forall (fun d => range_wf (Report.d_range d) /\ lines_le 5 (Report.d_range d)) (Report.report t pd).
+Proof. exact ResponseRangesWitness.old_merged_run_refuted. Qed.
+
+(* ---- non-vacuity on real dumps: the premises hold (NodeWf checked by computation), the conclusions follow through
+        the theorems ---- *)
+(* a document with all six sources among its fifteen items *)
+Example C08_response_diagnostics_nonvacuous :
+  Forall_nodes (NodeWf 15) ReportWitness.w_resp /\
+  Forall (fun p => range_wf (Report.pd_range p) /\ lines_le 15 (Report.pd_range p)) ReportWitness.w_resp_pd /\
+  length (Report.report ReportWitness.w_resp ReportWitness.w_resp_pd) = 15%nat /\
+  forallb (fun k => negb (Nat.eqb (length (ReportProofs.part k (Report.report ReportWitness.w_resp ReportWitness.w_resp_pd))) 0))
+          [0; 1; 2; 3; 4; 5]%N = true /\
+  Forall (fun d => range_wf (Report.d_range d) /\ lines_le 15 (Report.d_range d))
+         (Report.report ReportWitness.w_resp ReportWitness.w_resp_pd).
+Proof.
+  destruct ResponseRangesWitness.report_witness_premises as (A & B & C).
+  split; [exact A|]. split; [exact B|]. split; [exact C|].
+  split; [exact ResponseRangesWitness.report_witness_sources|exact ResponseRangesWitness.report_witness_items].
+Qed.
+
+(* the workspace aChild (aParent) / aParent / aLib / aUser: `self.Base` answers with two links into two files *)
+Example C08_definition_links_nonvacuous :
+  Forall2 (fun d L => Forall_nodes (NodeWf L) (snd d)) WsTreeWitness.wsx2 [10; 5; 1; 4] /\
+  ResponseRanges.TablesAtHome WsTreeWitness.wsx2 /\
+  WsTree.wdefinition WsTreeWitness.wsx2 0 (mkPos 7 6) =
+    Ans [(WsTreeWitness.wx_aChild, WsTreeWitness.wrg 9 5 9 9, WsTreeWitness.wrg 9 0 10 7);
+         (WsTreeWitness.wx_aParent, WsTreeWitness.wrg 3 5 3 9, WsTreeWitness.wrg 3 0 5 7)].
+Proof. exact ResponseRangesWitness.links_witness_premises. Qed.
+
+(* the workspace aKa / aKb (aKa) / aKc (aKb): the premises, and an item prepared on a field's name *)
+Example C08_hierarchy_items_nonvacuous :
+  (Forall2 (fun d L => Forall_nodes (NodeWf L) (snd d)) HierTreeWitness.ht_ws [6; 6; 7] /\
+   HierTreeProofs.distinct_stems HierTreeWitness.ht_ws /\ ResponseRanges.TablesAtHomeH HierTreeWitness.ht_ws) /\
+  exists d it, In d HierTreeWitness.ht_ws /\ HierTree.prepare HierTreeWitness.ht_ws d (mkPos 2 1) = Ans (HierTree.ROk [it]) /\
+               HierTree.i_kind it = HierTree.IField /\ ResponseRanges.ItemWf HierTreeWitness.ht_ws [6; 6; 7] it.
+Proof. split; [exact ResponseRangesWitness.items_witness_premises|exact ResponseRangesWitness.items_witness_field]. Qed.
+
+Print Assumptions C08_response_diagnostics_wf.
+Print Assumptions C08_response_requests_wf.
+Print Assumptions C08_definition_links_doc_wf.
+Print Assumptions C08_definition_links_wf.
+Print Assumptions C08_definition_links_source_wf.
+Print Assumptions C08_hierarchy_items_wf.
+Print Assumptions C08_response_of_text_wf.
+Print Assumptions C08_links_of_text_wf.
+Print Assumptions C08_links_of_texts_wf.
+Print Assumptions C08_items_of_texts_wf.
+Print Assumptions C08_link_foreign_lines_refuted.
+Print Assumptions C08_item_foreign_lines_refuted.
+Print Assumptions C08_old_merged_run_refuted.
+Print Assumptions C08_response_diagnostics_nonvacuous.
+Print Assumptions C08_definition_links_nonvacuous.
+Print Assumptions C08_hierarchy_items_nonvacuous.
